@@ -60,7 +60,11 @@ def generate(rng: random.Random, tier: str, seed: int) -> dict:
         job = {"nodes": base["nodes"], "context": base["context"], "init_data": base["init_data"], "gap": rng.choice([0.0, 0.0, 0.01, 0.15, 0.6]),
                "no_future": rng.random() < 0.15,            # fire-and-forget job (enqueue without return_future)
                "ctx_none": rng.random() < 0.6,              # an empty context is passed as context=None
-               "as_yaml": rng.random() < 0.12}              # pipeline_cfg given as a path to a YAML file
+               "as_yaml": rng.random() < 0.12,              # pipeline_cfg given as a path to a YAML file
+               "ctx_subclass": rng.random() < 0.15,         # the caller's context is an instance of its own ContextType subclass
+               # an explicit registry profile travels with the job: one that names extra search paths, or one the worker cannot
+               # apply (an extension that is not installed there) - the worker warns and the job still runs and reports
+               "profile": rng.choice([None] * 8 + ["with_paths", "cannot_be_applied"])}
         if rng.random() < 0.12:
             # legal user keys that look like protocol fields: they are the job's own data and must come back untouched
             job["context"] = dict(job["context"], **{rng.choice(["error", "status", "result", "metadata"]): rng.choice([0.125, "error", "failed", 1.0])})
@@ -190,12 +194,20 @@ def _expected(job: dict, w) -> dict:
 
 def execute(sc: dict, seed: int) -> dict:
     from semantiva.context_processors import ContextType
+
+    class SvTaggedContext(ContextType):
+        """A caller's own ContextType subclass: keeps a tag outside the key/value store."""
+
+        def __init__(self, initial=None, tag="caller"):
+            super().__init__(initial)
+            self.tag = tag
     from semantiva.data_types import NoDataType
     from semantiva.examples.test_utils import FloatDataType
     from semantiva.execution.executor.executor import SequentialSemantivaExecutor
     from semantiva.execution.job_queue import queue_orchestrator as qo
     from semantiva.execution.job_queue import worker as wk
     from semantiva.execution.transport import in_memory as im
+    from semantiva.registry.bootstrap import RegistryProfile
     from ..world import _data_repr, ctx_snapshot
 
     stats: dict = {}
@@ -275,6 +287,10 @@ def execute(sc: dict, seed: int) -> dict:
                         threads.sim_sleep(job["gap"])
                     data = None if job["init_data"] is None else FloatDataType(float(job["init_data"]))
                     ctx_arg = None if (not job["context"] and job.get("ctx_none")) else ContextType(copy.deepcopy(job["context"]))
+                    if ctx_arg is not None and job.get("ctx_subclass"):
+                        # "that job's payload" is the object the caller handed in, whatever ContextType subclass it is
+                        ctx_arg = SvTaggedContext(copy.deepcopy(job["context"]))
+                        stats["probe.context_is_a_subclass"] = stats.get("probe.context_is_a_subclass", 0) + 1
                     cfg_arg = copy.deepcopy(job["nodes"])
                     if job.get("unloadable") == "yaml_path_missing":
                         cfg_arg = os.path.join(w.sandbox, f"no_such_job_{i}.yaml")
@@ -286,8 +302,14 @@ def execute(sc: dict, seed: int) -> dict:
                         harness.write_cli_config({"nodes": job["nodes"]}, f"job_{i}.yaml", executor=False)
                         cfg_arg = os.path.join(w.sandbox, f"job_{i}.yaml")
                         stats["probe.job_given_as_yaml_path"] = stats.get("probe.job_given_as_yaml_path", 0) + 1
+                    prof = None
+                    if job.get("profile") == "with_paths":
+                        prof = RegistryProfile(modules=["svsim.lib", "semantiva.examples.test_utils"], paths=[w.sandbox])
+                    elif job.get("profile") == "cannot_be_applied":
+                        prof = RegistryProfile(modules=["svsim.lib", "semantiva.examples.test_utils"], extensions=["sv_extension_not_installed_here"])
+                        stats["fault.job_profile_cannot_be_applied"] = stats.get("fault.job_profile_cannot_be_applied", 0) + 1
                     futures[i] = orch.enqueue(cfg_arg, data=data, context=ctx_arg,
-                                              return_future=not job.get("no_future"))
+                                              return_future=not job.get("no_future"), **({"registry_profile": prof} if prof else {}))
                     sched.log("enqueue", i)
                     if sc.get("cancel_at") == i and futures[i] is not None:
                         if futures[i].cancel():
@@ -392,6 +414,9 @@ def execute(sc: dict, seed: int) -> dict:
                     key = "cross_talk" if other else "wrong_result"
                     viols.append(oracles.V("result", key, f"job {i}: got data={_data_repr(data)} ctx={got_ctx}; direct run gives data={exp['data']} ctx={exp['context']}"
                                            + (f"; equals job {other[0]}'s result" if other else "")))
+                if sc["jobs"][i].get("ctx_subclass") and sc["jobs"][i]["context"] and type(ctx).__name__ != "SvTaggedContext":
+                    # a direct run returns the payload's own context object; the queue must not swap its type
+                    viols.append(oracles.V("result", "context_type_changed", f"job {i}: enqueued with a SvTaggedContext, future returned a {type(ctx).__name__}"))
                 if not isinstance(jid, str) or not jid:
                     viols.append(oracles.V("result", "job_id_annotation_missing", f"job {i}: context has no job_id annotation"))
         if outcome == "completed" and sc.get("chained") and futures and futures[0] is not None:
